@@ -59,6 +59,23 @@ class PoolCheck:
         self.last_failure = (signature, full, text)
         raise CaseFailure(signature)
 
+    def claim_build_failures(self, needles, signature):
+        """pool schemas whose generated driver does not compile at a call of this property's API are violations of
+        this property too (C07 reports every such schema; here only the ones naming the API in the compiler error)"""
+        for fe in self.pool.failures:
+            st_ = fe.status
+            hits = [e for e in st_.get("errors", []) if any(n in e for n in needles) and "error" in e]
+            if not hits or st_.get("stage") not in ("driver", "driver-nc", "driver_nc"):
+                continue
+            self.res.count()
+            if self.res.findings.is_known(signature):
+                continue
+            self.res.violation(signature, {"schema_xml": fe.xml, "model": fe.sch, "config": st_.get("failed_config"), "stage": st_.get("stage"),
+                                           "build_failure": True},
+                               "[%s] the documented call does not compile against the generated code: %s" % (
+                                   st_.get("failed_config"), "; ".join(h.split("/")[-1] for h in hits[:2])))
+            break
+
     def run_hypothesis(self, fn, max_examples, seed_offset=0):
         """fn(data) is the property body. Shrinks on failure; the minimal failure becomes the violation."""
         @hseed(common.seed() + seed_offset)
@@ -85,6 +102,8 @@ class PoolCheck:
 
 def replay_entry(case, cfgnames):
     """rebuild schema + driver(s) of a replay file from the current tree"""
+    if case.get("build_failure"):
+        cfgnames = [case.get("config")] if case.get("config") else cfgnames
     sbeppc = common.build_sbeppc("plain")
     edir = common.build_dir("replay-%d" % os.getpid())
     shutil.rmtree(edir, ignore_errors=True)
